@@ -515,6 +515,25 @@ VARIANTS += [
     M("segdist-foreign-bit-ignored", SUBS, "        if bit_child and not bit_parent:\n            return -1\n", "", "SEGMENT-MACHINE"),
     T("twin-segdist-nested-if", SUBS, "            elif in_segm:\n                in_segm = False\n", "            else:\n                in_segm = False\n"),
 ]
+
+VARIANTS += [
+    M("tikz-loss-wrong-edge", TIKZ, "                    loss_pos = Position(branch_pos.x, layout.trunk.top().y)", "                    loss_pos = Position(branch_pos.x, layout.trunk.bottom().y)", "SIGMA-DRAW"),
+    T("twin-tikz-fork-corner", TIKZ, "                left_layout.trunk.top_left().meet_hv(layout.trunk.top_right()),", "                left_layout.trunk.top_left().meet_hv(layout.trunk.bottom_right()),",
+      note="meet_hv only reads the x coordinate of its argument: top_right and bottom_right have the same x"),
+    M("tikz-fork-corner-y", TIKZ, "                left_layout.trunk.top_left().meet_hv(layout.trunk.top_right()),", "                left_layout.trunk.top_left().meet_hv(layout.trunk.top_left()),", "SIGMA-DRAW"),
+    M("tikz-fork-links-same", TIKZ, "        fork_links = (\"-|\", \"|-\")", "        fork_links = (\"|-\", \"-|\")", "SIGMA-DRAW"),
+    M("tikz-leaf-marker-offset", TIKZ, "                leaf_pos = branch.rect.left() + Position(\n                    params.extant_gene_diameter / 2, 0\n                )",
+      "                leaf_pos = branch.rect.left() + Position(\n                    0, params.extant_gene_diameter / 2\n                )", "SIGMA-DRAW"),
+    T("twin-tikz-fork-join-other-corner", TIKZ, "            fork_join = layout.trunk.bottom_right() + Position(layout.fork_thickness, 0)", "            fork_join = layout.trunk.top_right() + Position(layout.fork_thickness, 0)",
+      note="only the x coordinate of fork_join is ever read in the horizontal arm"),
+    T("twin-tikz-loss-corner", TIKZ, "                    loss_pos = Position(layout.trunk.right().x, branch_pos.y)", "                    loss_pos = Position(layout.trunk.top_right().x, branch_pos.y)"),
+    M("layout-swap-test-reversed", LAYOUT, "if species_lca.is_ancestor_of(left_species, mapping[right_gene]):", "if species_lca.is_ancestor_of(mapping[right_gene], left_species):", "LAYOUT-SIDES"),
+    M("layout-hgt-sides", LAYOUT, "                        if species_lca.is_ancestor_of(root_species, mapping[left_gene])\n                        else (right_gene, left_gene)",
+      "                        if species_lca.is_ancestor_of(mapping[left_gene], root_species)\n                        else (right_gene, left_gene)", "LAYOUT-SIDES"),
+    M("layout-loss-other-species", LAYOUT, "                    right_gene = _add_losses(\n                        layout_state,\n                        right_gene,\n                        mapping[right_gene],\n                        root_species,\n                    )",
+      "                    right_gene = _add_losses(\n                        layout_state,\n                        right_gene,\n                        mapping[left_gene],\n                        root_species,\n                    )", "LAYOUT-SIDES"),
+    T("twin-layout-swap-test-right-child", LAYOUT, "if species_lca.is_ancestor_of(left_species, mapping[right_gene]):", "if not species_lca.is_ancestor_of(root_species.children[1], mapping[right_gene]):"),
+]
 # the CLI twin needs a second edit (label in reconcile)
 for _v in VARIANTS:
     if _v.name == "twin-cli-label-in-reconcile":
